@@ -467,6 +467,11 @@ Section Env.
     f_attrs (rtdc_copy sel ib il it f) = f_attrs f.
   Proof. unfold C08.rtdc_copy. destruct (fold_left _ _ _). reflexivity. Qed.
 
+  (* rtdc_copy (and so repack) leaves the software version chain alone *)
+  Theorem copy_preserves_version sel ib il it f :
+    f_soft (rtdc_copy sel ib il it f) = f_soft f.
+  Proof. unfold C08.rtdc_copy. destruct (fold_left _ _ _). reflexivity. Qed.
+
   Theorem copy_preserves_logs sel ib it f :
     Forall (fun kd => wf_dset (snd kd)) (f_logs f) ->
     named_content (f_logs (rtdc_copy sel ib true it f)) = named_content (f_logs f).
@@ -591,20 +596,21 @@ Section Env.
   Qed.
 
   (* compress keeps every log that is not one of its own command logs *)
-  Theorem compress_keeps_logs warned f k d :
-    k <> L_CMD -> k <> L_WARN -> k <> L_CMD_OLD -> k <> L_WARN_OLD ->
+  Theorem compress_keeps_logs warned kold kwold f k d :
+    k <> L_CMD -> k <> L_WARN -> k <> kold -> k <> kwold ->
     assoc k (f_logs f) = Some d ->
-    assoc k (f_logs (compress fexists fscalar fbmap defective rekey warned f))
+    assoc k (f_logs (compress fexists fscalar fbmap defective rekey warned
+                              kold kwold f))
     = Some (h5ds_copy true d).
   Proof.
-    intros H1 H2 H3 H4 Ha. unfold compress, with_logs.
+    intros H1 H2 H3 H4 Ha. unfold compress, with_soft, with_logs.
     assert (Hg : assoc k (f_logs (rtdc_copy FAll true true true f))
                  = Some (h5ds_copy true d)).
     { unfold C08.rtdc_copy. destruct (fold_left _ _ _). cbn [f_logs].
       rewrite assoc_map_snd, Ha. reflexivity. }
     set (g := rtdc_copy FAll true true true f) in *.
-    assert (Hl : assoc k (rename_log L_WARN L_WARN_OLD false
-                   (rename_log L_CMD L_CMD_OLD false (f_logs g))
+    assert (Hl : assoc k (rename_log L_WARN kwold false
+                   (rename_log L_CMD kold false (f_logs g))
                  ++ [(L_CMD, cmd_log)]) = Some (h5ds_copy true d)).
     { rewrite assoc_app, !rename_log_other by assumption. rewrite Hg. reflexivity. }
     destruct warned; cbn [f_logs].
@@ -612,30 +618,30 @@ Section Env.
     - exact Hl.
   Qed.
 
-  Theorem compress_events warned f :
-    f_events (compress fexists fscalar fbmap defective rekey warned f)
-    = f_events (rtdc_copy FAll true true true f)
-    /\ f_bevents (compress fexists fscalar fbmap defective rekey warned f)
-       = f_bevents (rtdc_copy FAll true true true f)
-    /\ f_tables (compress fexists fscalar fbmap defective rekey warned f)
-       = f_tables (rtdc_copy FAll true true true f)
-    /\ f_basins (compress fexists fscalar fbmap defective rekey warned f)
-       = f_basins (rtdc_copy FAll true true true f)
-    /\ f_attrs (compress fexists fscalar fbmap defective rekey warned f)
-       = f_attrs f.
+  (* compress = the copy + log bookkeeping + one more version segment *)
+  Theorem compress_events warned kold kwold f :
+    let c := compress fexists fscalar fbmap defective rekey warned kold kwold f in
+    let g := rtdc_copy FAll true true true f in
+    f_events c = f_events g /\ f_bevents c = f_bevents g
+    /\ f_tables c = f_tables g /\ f_basins c = f_basins g
+    /\ f_attrs c = f_attrs f
+    /\ f_soft c = bump_version (f_soft f).
   Proof.
-    unfold compress, with_logs. cbn. repeat split. apply copy_preserves_metadata.
+    cbv zeta. unfold compress, with_soft, with_logs. cbn. repeat split.
+    - apply copy_preserves_metadata.
+    - now rewrite copy_preserves_version.
   Qed.
 
   (* compress as a whole: features *)
-  Theorem compress_preserves_feature warned f name n :
+  Theorem compress_preserves_feature warned kold kwold f name n :
     assoc name (f_events f) = Some n ->
     fexists name = true -> defective name = false -> node_wf n ->
     exists n', assoc name (f_events (compress fexists fscalar fbmap defective
-                                              rekey warned f)) = Some n'
+                                              rekey warned kold kwold f))
+               = Some n'
                /\ node_same n n'.
   Proof.
-    intros. destruct (compress_events warned f) as [-> _].
+    intros. destruct (compress_events warned kold kwold f) as [-> _].
     now apply copy_all_preserves_feature.
   Qed.
 
@@ -649,28 +655,31 @@ Section Env.
     - destruct (k =? k'); [reflexivity|exact IH].
   Qed.
 
-  (* the previous command log survives under its new name *)
-  Theorem compress_renames_old_log warned f d :
-    assoc L_CMD (f_logs f) = Some d -> assoc L_CMD_OLD (f_logs f) = None ->
-    assoc L_CMD_OLD (f_logs (compress fexists fscalar fbmap defective rekey
-                                      warned f))
+  (* the previous command log survives under its new name [kold] (the md5 of
+     the input file: a name that is not yet used, and none of the reserved
+     ones) *)
+  Theorem compress_renames_old_log warned kold kwold f d :
+    kold <> L_CMD -> kold <> L_WARN -> kold <> kwold ->
+    assoc L_CMD (f_logs f) = Some d -> assoc kold (f_logs f) = None ->
+    assoc kold (f_logs (compress fexists fscalar fbmap defective rekey
+                                 warned kold kwold f))
     = Some (h5ds_copy true d).
   Proof.
-    intros Ha Hn. unfold compress, with_logs.
+    intros N1 N2 N3 Ha Hn. unfold compress, with_soft, with_logs.
     set (g := rtdc_copy FAll true true true f).
     assert (Hg : f_logs g = map (fun kd => (fst kd, h5ds_copy true (snd kd)))
                                 (f_logs f)).
     { unfold g, C08.rtdc_copy. destruct (fold_left _ _ _). reflexivity. }
-    assert (H1 : assoc L_CMD_OLD (rename_log L_CMD L_CMD_OLD false (f_logs g))
+    assert (H1 : assoc kold (rename_log L_CMD kold false (f_logs g))
                  = Some (h5ds_copy true d)).
     { unfold rename_log. rewrite Hg, assoc_map_snd, Ha.
-      rewrite assoc_app, assoc_filter_other by (unfold L_CMD, L_CMD_OLD; lia).
-      rewrite assoc_map_snd, Hn. simpl. reflexivity. }
-    assert (H2 : assoc L_CMD_OLD
-                   (rename_log L_WARN L_WARN_OLD false
-                      (rename_log L_CMD L_CMD_OLD false (f_logs g)))
+      rewrite assoc_app, assoc_filter_other by assumption.
+      rewrite assoc_map_snd, Hn. simpl. rewrite Z.eqb_refl. reflexivity. }
+    assert (H2 : assoc kold
+                   (rename_log L_WARN kwold false
+                      (rename_log L_CMD kold false (f_logs g)))
                  = Some (h5ds_copy true d)).
-    { rewrite rename_log_other; [exact H1| |]; unfold L_CMD_OLD, L_WARN, L_WARN_OLD; lia. }
+    { rewrite rename_log_other; [exact H1| |]; assumption. }
     destruct warned; cbn [f_logs]; rewrite !assoc_app, H2; reflexivity.
   Qed.
 
@@ -747,11 +756,12 @@ Section Env.
   Qed.
 
   (* every scalar feature condense selects is in the events of the output:
-     either the copy made by rtdc_copy, or ds[feat] as dclab provides it *)
-  Theorem condense_scalar_features sa sb w loaded basin anc f x :
-    let g := rtdc_copy FScalar true true true f in
+     the copy made by rtdc_copy if there is one, otherwise what the writer
+     was handed, ds[feat] (for a .tdms input: always the latter) *)
+  Theorem condense_scalar_features sa sb w h5 kold kwold loaded basin anc f x :
+    let g := condense_base fexists fscalar fbmap defective rekey h5 f in
     let out := condense fexists fscalar fbmap defective rekey fsc dsval
-                        sa sb w loaded basin anc f in
+                        sa sb w h5 kold kwold loaded basin anc f in
     In x (condense_features fsc sa sb loaded basin anc g) ->
     match assoc x (f_events g) with
     | Some n => assoc x (f_events out) = Some n
@@ -759,23 +769,98 @@ Section Env.
     end.
   Proof.
     cbv zeta. intros Hin. unfold condense.
-    set (g := rtdc_copy FScalar true true true f) in *.
+    set (g := condense_base fexists fscalar fbmap defective rekey h5 f) in *.
     set (feats := condense_features fsc sa sb loaded basin anc g) in *.
     destruct (fold_store_spec feats (f_events g) x) as [A [B _]].
     destruct w; cbn [f_events];
       (destruct (assoc x (f_events g)) eqn:E; [now apply A|now apply B]).
   Qed.
 
-  (* the internal basin data stay where rtdc_copy put them *)
-  Theorem condense_keeps_copy sa sb w loaded basin anc f :
+  (* condense of an .rtdc file: every stored scalar feature that is
+     recognised and not marked keeps shape, elements, dtype and attributes,
+     whatever dclab offers in addition (composition of the copy theorem with
+     "the writer loop never replaces an existing feature") *)
+  Theorem condense_preserves_stored_scalar sa sb w kold kwold loaded basin anc
+          f name n :
+    assoc name (f_events f) = Some n -> fscalar name = true ->
+    fexists name = true -> defective name = false -> node_wf n ->
+    exists n', assoc name (f_events (condense fexists fscalar fbmap defective
+                                              rekey fsc dsval sa sb w true
+                                              kold kwold loaded basin anc f))
+               = Some n'
+               /\ node_same n n'.
+  Proof.
+    intros Ha Hs He Hd Hwf.
+    destruct (copy_scalar_preserves_feature true true f name n Ha Hs He Hd Hwf)
+      as [n' [Hn' Hsame]].
+    exists n'. split; [|exact Hsame]. unfold condense, condense_base.
+    set (g := rtdc_copy FScalar true true true f) in *.
+    destruct (fold_store_spec
+                (condense_features fsc sa sb loaded basin anc g)
+                (f_events g) name) as [A _].
+    destruct w; cbn [f_events]; now apply A.
+  Qed.
+
+  (* condense of a .tdms file: the output holds exactly the selected scalar
+     features, each as handed to the writer, and nothing else *)
+  Theorem condense_tdms_features sa sb w kold kwold loaded basin anc f x :
+    let out := condense fexists fscalar fbmap defective rekey fsc dsval
+                        sa sb w false kold kwold loaded basin anc f in
+    assoc x (f_events out)
+    = (if memZ x (condense_features fsc sa sb loaded basin anc empty_file)
+       then Some (stored_feature dsval x) else None)
+    /\ f_bevents out = [] /\ f_tables out = [] /\ f_basins out = [].
+  Proof.
+    cbv zeta. unfold condense, condense_base.
+    set (feats := condense_features fsc sa sb loaded basin anc empty_file).
+    destruct (fold_store_spec feats (f_events empty_file) x) as [_ [B C]].
+    assert (H : assoc x (fold_left
+                (fun ev x0 => match assoc x0 ev with
+                              | Some _ => ev
+                              | None => ev ++ [(x0, stored_feature dsval x0)]
+                              end) feats (f_events empty_file))
+              = if memZ x feats then Some (stored_feature dsval x) else None).
+    { destruct (memZ x feats) eqn:E.
+      - apply B; [reflexivity|]. now apply memZ_In.
+      - apply C; [reflexivity|]. now apply memZ_false. }
+    destruct w; cbn [f_events f_bevents f_tables f_basins empty_file];
+      repeat split; exact H.
+  Qed.
+
+  (* the internal basin data stay where rtdc_copy put them; the metadata are
+     those of the input, the version chain gets one more segment *)
+  Theorem condense_keeps_copy sa sb w kold kwold loaded basin anc f :
     let g := rtdc_copy FScalar true true true f in
     let out := condense fexists fscalar fbmap defective rekey fsc dsval
-                        sa sb w loaded basin anc f in
+                        sa sb w true kold kwold loaded basin anc f in
     f_bevents out = f_bevents g /\ f_tables out = f_tables g
-    /\ f_basins out = f_basins g /\ f_attrs out = f_attrs f.
+    /\ f_basins out = f_basins g /\ f_attrs out = f_attrs f
+    /\ f_soft out = bump_version (f_soft f).
   Proof.
-    cbv zeta. unfold condense. destruct w; cbn; repeat split;
-      apply copy_preserves_metadata.
+    cbv zeta. unfold condense, condense_base. destruct w; cbn; repeat split;
+      try apply copy_preserves_metadata; now rewrite copy_preserves_version.
+  Qed.
+
+  (* version_brand appends exactly one segment, or nothing when the chain
+     already ends with the current version *)
+  Theorem bump_version_spec segs :
+    bump_version segs = segs ++ [SEG_CUR]
+    \/ (bump_version segs = segs /\ segs <> [] /\ last segs 0 = SEG_CUR).
+  Proof.
+    unfold bump_version. destruct segs as [|a l]; [now left|].
+    destruct (last (a :: l) 0 =? SEG_CUR) eqn:E.
+    - right. split; [reflexivity|]. split; [discriminate|lia].
+    - now left.
+  Qed.
+
+  Theorem bump_version_idem segs :
+    bump_version (bump_version segs) = bump_version segs.
+  Proof.
+    destruct (bump_version_spec segs) as [H|[H [Hn Hl]]].
+    - rewrite H. unfold bump_version at 1.
+      destruct (segs ++ [SEG_CUR]) eqn:E; [destruct segs; discriminate|].
+      rewrite <- E, last_last, Z.eqb_refl. reflexivity.
+    - now rewrite !H.
   Qed.
 End Env.
 
@@ -825,7 +910,7 @@ Definition ex_log : dset := mkD [2] None 1 0 None [[104; 105]; [33]] [].
 Definition ex_tab : dset := mkD [1] None 3 0 None [[1; 2; 3]] [(11, 5)].
 Definition ex_file : h5file :=
   mkF [(20, 1)] [(30, NDs ex_d1); (31, NGrp [(0, ex_d1)])] []
-      [(40, ex_log)] [(50, ex_tab)] [].
+      [(40, ex_log)] [(50, ex_tab)] [] [7].
 
 Example ex_copy_feature :
   let ex := fun x => 30 <=? x in
